@@ -960,6 +960,45 @@ class CallMixin:
         return self.havoc_call(st, f"dict.{name}", ([obj] if not const else []) + list(args), node)
 
     # --------------------------------------------------------- str methods --
+    def _format_exact(self, st, template, args, kwargs):
+        """'..{}..{0}..{name}..'.format(...) with a constant template, plain fields (no conversion / format spec / attribute or
+        index lookups): the concatenation, exactly as the equivalent f-string.  None = not in this fragment."""
+        if template is None:
+            return None
+        import string
+        try:
+            fields = list(string.Formatter().parse(template))
+        except ValueError:
+            return None
+        parts, auto, manual = [], 0, False
+        for lit, fname, spec, conv in fields:
+            if lit:
+                parts.append(z3.StringVal(lit))
+            if fname is None:
+                continue
+            if spec or conv:
+                return None
+            if fname == "":
+                if manual:
+                    return None
+                v = args[auto] if auto < len(args) else None
+                auto += 1
+            elif fname.isdigit():
+                if auto:
+                    return None
+                manual = True
+                v = args[int(fname)] if int(fname) < len(args) else None
+            elif fname.isidentifier():
+                v = (kwargs or {}).get(fname)
+            else:
+                return None
+            if v is None:
+                return None
+            parts.append(self.to_str(st, v).t)          # same conversion as the f-string replacement field `{v}`
+        if not parts:
+            return VStr("")
+        return VStr(z3.simplify(z3.Concat(*parts)) if len(parts) > 1 else parts[0])
+
     def str_method(self, st, s: VStr, name, args, kwargs, node):
         c = s.const()
         if name in ("lower", "upper", "strip", "lstrip", "rstrip", "casefold", "title", "capitalize"):
@@ -996,6 +1035,9 @@ class CallMixin:
                 acc = z3.Concat(acc, s.t, x.t)
             return [(st, VStr(acc))]
         if name == "format":
+            exact = self._format_exact(st, c, args, kwargs)
+            if exact is not None:
+                return [(st, exact)]
             return [(st, VStr(z3.String(fresh_name("format"))))]
         if name == "replace" and len(args) == 2 and all(isinstance(a, VStr) for a in args):
             ca, cb = args[0].const(), args[1].const()
